@@ -52,7 +52,7 @@ func (w *XMLWriter) Attr(key, value string) *XMLWriter {
 		w.b.WriteString(" ")
 		w.b.WriteString(key)
 		w.b.WriteString("=\"")
-		w.writeEsc(value)
+		w.writeEsc(value, true)
 		w.b.WriteString("\"")
 	} else {
 		log.Print("tag is not open")
@@ -86,7 +86,7 @@ func (w *XMLWriter) write(s string) {
 func (w *XMLWriter) Write(s string) *XMLWriter {
 	w.checkOpenTag()
 	w.checkIndent()
-	w.writeEsc(s)
+	w.writeEsc(s, false)
 	return w
 }
 
@@ -96,7 +96,11 @@ func (w *XMLWriter) WriteHTML(s template.HTML) *XMLWriter {
 	return w
 }
 
-func (w *XMLWriter) writeEsc(s string) {
+// writeEsc writes s with all markup characters escaped. A carriage return, and
+// in attribute values also a line feed and a tab, are written as character
+// references: an XML parser normalizes the raw characters (line end and
+// attribute value normalization), so they would not be read back unchanged.
+func (w *XMLWriter) writeEsc(s string, attr bool) {
 	for _, r := range s {
 		switch r {
 		case '\'':
@@ -109,6 +113,20 @@ func (w *XMLWriter) writeEsc(s string) {
 			w.b.WriteString("&gt;")
 		case '&':
 			w.b.WriteString("&amp;")
+		case '\r':
+			w.b.WriteString("&#xD;")
+		case '\n':
+			if attr {
+				w.b.WriteString("&#xA;")
+			} else {
+				w.b.WriteRune(r)
+			}
+		case '\t':
+			if attr {
+				w.b.WriteString("&#x9;")
+			} else {
+				w.b.WriteRune(r)
+			}
 		default:
 			w.b.WriteRune(r)
 		}
